@@ -117,10 +117,39 @@ class RecLogger(Logger):
         tr.add("log.direct", **kw)
         super().write_and_direct_process(log)
 
-    def process(self, logs):
-        tr = T()
-        for l in logs:
-            tr.add("log.process", log=l)
+    # the records as a user's Logger subclass receives them: through the per-type handlers that Logger.process dispatches to
+    def _handled(self, handler, log):
+        T().add("log.process", log=log, handler=handler)
+
+    def process_order_log(self, log):
+        self._handled("OrderLog", log)
+
+    def process_cancel_log(self, log):
+        self._handled("CancelLog", log)
+
+    def process_expiration_log(self, log):
+        self._handled("ExpirationLog", log)
+
+    def process_execution_log(self, log):
+        self._handled("ExecutionLog", log)
+
+    def process_simulation_begin_log(self, log):
+        self._handled("SimulationBeginLog", log)
+
+    def process_simulation_end_log(self, log):
+        self._handled("SimulationEndLog", log)
+
+    def process_session_begin_log(self, log):
+        self._handled("SessionBeginLog", log)
+
+    def process_session_end_log(self, log):
+        self._handled("SessionEndLog", log)
+
+    def process_market_step_begin_log(self, log):
+        self._handled("MarketStepBeginLog", log)
+
+    def process_market_step_end_log(self, log):
+        self._handled("MarketStepEndLog", log)
 
 
 # ---------------------------------------------------------------------------------------------------------------
